@@ -144,6 +144,86 @@ HOWS = ["feature_setitem", "attr_setitem", "update_dict", "update_kwargs", "upda
 PARAM_NAMES = ["other", "args", "kwargs", "key", "value", "k", "v", "d", "mapping", "iterable", "E", "F", "m", "default", "item"]
 
 
+# attribute keys, as they arrive by PARSING a line or from a DATABASE row, that are spelled like parameter names of Python
+# functions / methods (ID=g1;self=yes;kwargs=2): the names asked for first (twice as likely), then further usual ones
+PARSED_PARAM_NAMES = ["self", "cls", "args", "kwargs", "other", "d", "key", "value"]
+MORE_PARAM_NAMES = ["k", "v", "x", "obj", "mapping", "iterable", "default", "isattributes", "items", "keys", "values", "data",
+                    "name", "dict", "string", "line", "feature", "update", "pop", "get"]
+
+
+def kw_safe(how, items):
+    """'self' cannot be given as a KEYWORD to any method written in Python (update(self=...) is refused by the call
+    itself, before gffutils sees it): such items go through update(dict) instead."""
+    if how == "update_kwargs" and any(k == "self" for k, _ in items):
+        return "update_dict"
+    return how
+
+
+def param_key(rng, used=()):
+    pool = [k for k in PARSED_PARAM_NAMES + PARSED_PARAM_NAMES + MORE_PARAM_NAMES if k not in used]
+    return rng.choice(pool) if pool else None
+
+
+def is_param_key(k):
+    return k in PARSED_PARAM_NAMES or k in MORE_PARAM_NAMES
+
+
+def param_pairs(rng, fmt="gff3", nmin=1, nmax=4, used=()):
+    """[[key, [values]]]: 1-4 attributes named like parameters, values that survive a line (GTF: one value)."""
+    used = list(used)
+    out = []
+    for _ in range(rng.randrange(nmin, nmax + 1)):
+        k = param_key(rng, used)
+        if k is None:
+            break
+        used.append(k)
+        if fmt == "gtf":
+            vals = [simple_value(rng)]
+        else:
+            vals = [simple_value(rng) for _ in range(rng.choice([1, 1, 1, 2, 3]))]
+        out.append([k, vals])
+    return out
+
+
+def param_base(rng, fmt):
+    """Base attributes of a line carrying 1-4 attributes named like parameters (ID=g1;self=yes;kwargs=a,b)."""
+    if fmt == "gtf":
+        base = [["gene_id", [simple_value(rng)]], ["transcript_id", [simple_value(rng)]]]
+    else:
+        base = [["ID", [simple_value(rng)]]]
+    base += param_pairs(rng, fmt)
+    if rng.random() < 0.4:
+        base.insert(rng.randrange(1, len(base) + 1), ["Note", [simple_value(rng)]])
+    return base
+
+
+def param_ops(rng, base_keys, ntuple=False):
+    """0-4 operations, keys mostly parameter names ('self' never as a KEYWORD: update(self=...) is refused by Python
+    itself for any method written in Python)."""
+    keys = list(base_keys)
+    out = []
+    for _ in range(rng.randrange(0, 5)):
+        how = rng.choice(HOWS[:-1]) if rng.random() < 0.92 else "delete"
+        items = []
+        m = 1 if how in ("feature_setitem", "attr_setitem", "setdefault", "delete") else rng.randrange(1, 4)
+        for _ in range(m):
+            r = rng.random()
+            if r < 0.4 and keys:
+                k = rng.choice(keys)
+            elif r < 0.9:
+                k = param_key(rng)
+            else:
+                k = ukey(rng, keys)
+            if k not in keys:
+                keys.append(k)
+            if any(k == it[0] for it in items):
+                continue
+            items.append([k, form(rng, ntuple=ntuple)])
+        if items:
+            out.append({"how": kw_safe(how, items), "items": items, "switch": rng.random() < 0.7})
+    return out
+
+
 def ops(rng, base_keys, n=None, ntuple=False):
     """Operations on the attributes of one feature.  Each: {"how", "items": [[key, form]], "switch": bool}
     ("switch" False = the operation is carried out while always_return_list is False)."""
@@ -168,7 +248,7 @@ def ops(rng, base_keys, n=None, ntuple=False):
             if any(k == it[0] for it in items):
                 continue
             items.append([k, form(rng, ntuple=ntuple)])
-        out.append({"how": how, "items": items, "switch": rng.random() < 0.7})
+        out.append({"how": kw_safe(how, items), "items": items, "switch": rng.random() < 0.7})
     return out
 
 
@@ -385,7 +465,7 @@ def edit_steps(rng, base_keys, fmt):
                 if any(k == it[0] for it in items):
                     continue
                 items.append([k, safe_form(rng, fmt)])
-            op = {"how": how, "items": items, "switch": rng.random() < 0.8}
+            op = {"how": kw_safe(how, items), "items": items, "switch": rng.random() < 0.8}
         elif r < 0.75:
             what = rng.choice(INPLACE_WEIGHTED)
             nargs = rng.randrange(0, 4) if what in ("extend", "iadd", "slice_assign") else 1
@@ -426,6 +506,8 @@ def scalar_items(rng, fmt, rich, exclude=()):
     for i in range(rng.randrange(1, 6)):
         if rich:
             k = ukey(rng, used)
+        elif rng.random() < 0.15 and param_key(rng, used):
+            k = param_key(rng, used)
         else:
             k = R.key(rng, wordlike=True, used=used)
         used.append(k)
@@ -505,13 +587,13 @@ def member_ops(rng, base_keys, ntuple=False):
                 v = member_value(rng)
                 f = [f[0], v if f[0] in ("scalar", "substr") else [v] + list(f[1][:1])]
             items.append([k, f])
-        out.append({"how": how, "items": items, "switch": rng.random() < 0.7})
+        out.append({"how": kw_safe(how, items), "items": items, "switch": rng.random() < 0.7})
     return out
 
 
 # --- keep_order features whose own key order differs from the order of their dialect ----------------------------------
 KO_KEYS = ["ID", "Name", "biotype", "Alias", "Note", "gene_id", "transcript_id", "zeta", "Dbxref", "description", "score",
-           "tag", "étiquette"]
+           "tag", "étiquette", "self", "kwargs", "value", "cls"]
 
 
 def korder_case(rng):
